@@ -4,6 +4,16 @@ open Conv
 
 let rd_table v = rd_list (rd_pair rd_str rd_str) v
 
+let rd_ccfg = function
+  | L [name; path; domains; secure; httponly; samesite; expire] ->
+    { Cookies.c_name = rd_str name; c_path = rd_str path; c_domains = rd_list rd_str domains;
+      c_secure = rd_bool secure; c_httponly = rd_bool httponly; c_samesite = rd_n samesite;
+      c_expire_ns = rd_z expire }
+  | v -> raise (Bad ("bad cookie cfg " ^ to_string v))
+
+let rd_cookies v = rd_list (rd_pair rd_str rd_str) v
+let wr_headers l = wr_list (fun c -> wr_str (Cookies.cookie_string c)) l
+
 let register (reg : string -> (Sx.t list -> Sx.t) -> unit) : unit =
   (* ---- Lib ---- *)
   reg "b64_decode" (function
@@ -33,4 +43,25 @@ let register (reg : string -> (Sx.t list -> Sx.t) -> unit) : unit =
         let a = f now0 and b = f now1 in
         if a = b then wr_opt (wr_pair wr_str wr_z) a else Y "ambiguous"
       | _ -> raise (Bad "validate arity"));
+  (* ---- CookieStore ---- *)
+  reg "cs_save" (function
+      | [macs; cfg; host; cookies; value; created] ->
+        wr_opt wr_headers
+          (CookieStore.store_save (table_fun (rd_table macs)) (rd_ccfg cfg) (rd_str host) (rd_cookies cookies)
+             (rd_str value) (rd_z created))
+      | _ -> raise (Bad "cs_save arity"));
+  reg "cs_load" (function
+      | [macs; cfg; cookies; now0; now1] ->
+        let m = table_fun (rd_table macs) in
+        let f now = CookieStore.store_load m (rd_ccfg cfg) (rd_cookies cookies) (rd_z now) in
+        let a = f now0 and b = f now1 in
+        if a = b then wr_opt (wr_pair wr_str wr_z) a else Y "ambiguous"
+      | _ -> raise (Bad "cs_load arity"));
+  reg "cs_clear" (function
+      | [cfg; host; cookies; already] ->
+        wr_headers (CookieStore.store_clear (rd_ccfg cfg) (rd_str host) (rd_cookies cookies) (rd_list rd_str already))
+      | _ -> raise (Bad "cs_clear arity"));
+  reg "split_host_port" (function
+      | [x] -> wr_opt (wr_pair wr_str wr_str) (NetAddr.split_host_port (rd_str x))
+      | _ -> raise (Bad "split_host_port arity"));
   ()
